@@ -190,3 +190,33 @@ def storage(tier: str, prop: str) -> list[dict]:
         dict(policy="sac", kind="boxscalar", dims=[2], obs_kind="tuple", alt_kind="box", alt_dims=[2], alt_obs_kind="tuple"),
     ]
     return base
+
+
+def train(tier: str, prop: str) -> list[dict]:
+    """(algorithm, environment, observer set).  `totals`: total_timesteps values (static => one compile each)."""
+    def c(algo, env, n, T, observer, totals, **kw):
+        return dict(algo=algo, env=env, n=n, T=T, observer=observer, totals=totals, **kw)
+
+    base = [
+        c("PPO", "sim_discrete", 2, 8, "rec2", [53, 16]),
+        c("PPO", "cartpole", 2, 6, "video", [30], video_interval=1),
+        c("A2C", "sim_discrete", 3, 4, "list", [40, 25]),
+        c("REINFORCE", "sim_box", 1, 8, "console", [20]),
+        c("DQN", "sim_discrete", 2, 2, "rec1", [21, 8], starts=4),
+        c("DQN", "cartpole", 1, 3, "tb", [14], starts=5),
+        c("SAC", "sim_box", 2, 1, "rec2", [9, 4], starts=3),
+        c("SAC", "pendulum", 1, 2, "progress", [11], starts=4),
+        c("A2C", "cartpole", 2, 5, "video", [31], video_interval=2),
+        c("PPO", "sim_box", 1, 10, "clock", [35]),
+    ]
+    if prop == "C10":
+        base = [b for b in base if b["observer"] in ("rec1", "rec2", "list", "console", "tb", "clock", "video")]
+    if prop == "C19":
+        base = [b for b in base if b["observer"] in ("rec1", "rec2", "list", "video", "console", "tb")]
+    if tier == "quick":
+        return base
+    return base + [
+        c("REINFORCE", "cartpole", 2, 7, "rec1", [29, 14]),
+        c("DQN", "sim_discrete", 1, 4, "video" if False else "list", [33], starts=0),
+        c("SAC", "sim_box", 3, 2, "tb", [20], starts=6),
+    ]
